@@ -32,6 +32,7 @@ type wStep struct {
 	Together bool // source returns its last bytes together with the error
 	Chunk    int
 	URL      string
+	Format   string // string: called as String(code, Format) without values; Data holds what the format stands for
 }
 
 func (s wStep) String() string {
@@ -41,6 +42,9 @@ func (s wStep) String() string {
 	case "write", "writestring", "readfrom":
 		return fmt.Sprintf("%s(%q)", s.Kind, s.Data)
 	case "string", "blob", "stream":
+		if s.Format != "" {
+			return fmt.Sprintf("c.String(%d,%q) without values", s.Code, s.Format)
+		}
 		return fmt.Sprintf("c.%s(%d,%q)", s.Kind, s.Code, s.Data)
 	case "redirect":
 		return fmt.Sprintf("c.Redirect(%d,%q)", s.Code, s.URL)
@@ -78,7 +82,13 @@ func genWSteps(src sim.Source) []wStep {
 		case k < 14:
 			out = append(out, wStep{Kind: sim.Pick(src, "cap", []string{"push", "rdeadline", "wdeadline", "fullduplex"})})
 		case k < 15:
-			out = append(out, wStep{Kind: "string", Code: sim.Pick(src, "code", c14Codes[:5]), Data: data()})
+			st := wStep{Kind: "string", Code: sim.Pick(src, "code", c14Codes[:5]), Data: data()}
+			if src.Intn("literalformat", 3) == 0 {
+				// a format is a format even without values: %% stands for one percent sign
+				st.Format = sim.Pick(src, "format", []string{"100%%", "a%%b%%c", "%%", "plain"})
+				st.Data = fmt.Sprintf(st.Format)
+			}
+			out = append(out, st)
 		case k < 16:
 			out = append(out, wStep{Kind: "blob", Code: sim.Pick(src, "code", c14Codes[:5]), Data: data()})
 		case k < 17:
@@ -224,7 +234,9 @@ func runWHistory(w *world.World, steps []wStep, caps world.Caps, reqCT string, c
 			case "string", "blob":
 				fresh := conn.Finals == 0 && len(conn.Body) == 0
 				var err error
-				if st.Kind == "string" {
+				if st.Kind == "string" && st.Format != "" {
+					err = c.String(st.Code, st.Format)
+				} else if st.Kind == "string" {
 					err = c.String(st.Code, "%s", st.Data)
 				} else {
 					err = c.Blob(st.Code, "application/x-sim", []byte(st.Data))
@@ -240,7 +252,7 @@ func runWHistory(w *world.World, steps []wStep, caps world.Caps, reqCT string, c
 						}
 					}
 					got := len(conn.Body) - before
-					if conn.Explicit != st.Code || gotCT != wantCT || string(conn.Body[before:]) != st.Data[:got] || (got < len(st.Data) && err == nil) {
+					if conn.Explicit != st.Code || gotCT != wantCT || got > len(st.Data) || string(conn.Body[before:]) != st.Data[:got] || (got < len(st.Data) && err == nil) {
 						fail = fmt.Sprintf("%s on a fresh writer sent status %d, content type %q, body %q (error %v)", name, conn.Explicit, conn.H.Get("Content-Type"), conn.Body[before:], err)
 					}
 				}
